@@ -104,6 +104,20 @@ def handle (j : Json) : Except String Json := do
       -- validate keeps x; py2sql writes quantize x; sql2py quantizes what it reads again
       pure (Json.mkObj [("validated", jDec x), ("stored", jDec (quantize sc x)), ("loaded", jDec (quantize sc (quantize sc x)))])
     | _ => throw s!"store: unknown type {ty}"
+  | "intarray" =>
+    let items : List Int ← (do
+      match ← j.getObjVal? "items" with
+      | .arr a => a.toList.mapM (fun x => fromJson? x)
+      | _ => throw "items: array")
+    let txt := dumpsIntArray items
+    pure (Json.mkObj [("text", cpJson txt), ("loaded", match loadsIntArray txt with | some l => .arr (l.map jInt).toArray | none => .null)])
+  | "strarray" =>
+    let items : List (List Char) ← (do
+      match ← j.getObjVal? "items" with
+      | .arr a => a.toList.mapM (fun x => do pure ((← natList x).map Char.ofNat))
+      | _ => throw "items: array")
+    let txt := dumpsStrArray items
+    pure (Json.mkObj [("text", cpJson txt), ("loaded", match loadsStrArray txt with | some l => .arr (l.map cpJson).toArray | none => .null)])
   | "affinity" =>
     let decl ← argStr j "decl"
     let cps ← natList (← j.getObjVal? "s")
